@@ -26,6 +26,11 @@ specification left to right: finding V13). -/
 def oneNonAtom (args : List (String × Expr)) : Bool :=
   decide ((args.filter fun a => !atomE a.2).length ≤ 1)
 
+/-- Literals a `match` arm may test against. -/
+def litE : Expr → Bool
+  | .int .. | .bool .. | .str .. => true
+  | _ => false
+
 mutual
 def okGE : Expr → Bool
   | .int .. | .bool .. | .str .. | .null .. | .none .. => true
@@ -36,7 +41,12 @@ def okGE : Expr → Bool
   | .ifE _ _ c t (some eb) => okGE c && okGB t && okGB eb
   | .call _ _ (.ident _ _ name _ _ _) args false =>
     name != "throw" && name != "println" && okGArgs args && oneNonAtom args
+  | .matchE _ _ c arms (some d) => okGE c && okGArms arms && okGE d
   | _ => false
+/-- The arms of a `match`: literal patterns, bodies in the fragment. -/
+def okGArms : List (List Expr × Expr) → Bool
+  | [] => true
+  | a :: as => a.1.all litE && okGE a.2 && okGArms as
 def okGB : Block → Bool
   | .mk _ _ [] (some e) => okGE e
   | _ => false
@@ -52,7 +62,11 @@ def depthGE : Expr → Nat
   | .infix _ _ _ l r => max (depthGE l) (depthGE r) + 1
   | .ifE _ _ c t (some e) => max (depthGE c) (max (depthGB t) (depthGB e)) + 1
   | .call _ _ _ args _ => depthGArgs args + 1
+  | .matchE _ _ c arms (some d) => max (depthGE c) (max (depthGArms arms) (depthGE d)) + 1
   | _ => 1
+def depthGArms : List (List Expr × Expr) → Nat
+  | [] => 1
+  | a :: as => max (depthGE a.2) (depthGArms as) + 1
 def depthGB : Block → Nat
   | .mk _ _ _ (some e) => depthGE e + 1
   | _ => 1
@@ -69,7 +83,11 @@ def varsGE : Expr → List String
   | .infix _ _ _ l r => varsGE l ++ varsGE r
   | .ifE _ _ c t (some e) => varsGE c ++ (varsGB t ++ varsGB e)
   | .call _ _ _ args _ => varsGArgs args
+  | .matchE _ _ c arms (some d) => varsGE c ++ (varsGArms arms ++ varsGE d)
   | _ => []
+def varsGArms : List (List Expr × Expr) → List String
+  | [] => []
+  | a :: as => varsGE a.2 ++ varsGArms as
 def varsGB : Block → List String
   | .mk _ _ _ (some e) => varsGE e
   | _ => []
@@ -86,7 +104,11 @@ def callsGE : Expr → List String
   | .infix _ _ _ l r => callsGE l ++ callsGE r
   | .ifE _ _ c t (some e) => callsGE c ++ (callsGB t ++ callsGB e)
   | .call _ _ (.ident _ _ name _ _ _) args _ => name :: callsGArgs args
+  | .matchE _ _ c arms (some d) => callsGE c ++ (callsGArms arms ++ callsGE d)
   | _ => []
+def callsGArms : List (List Expr × Expr) → List String
+  | [] => []
+  | a :: as => callsGE a.2 ++ callsGArms as
 def callsGB : Block → List String
   | .mk _ _ _ (some e) => callsGE e
   | _ => []
@@ -96,6 +118,26 @@ def callsGArgs : List (String × Expr) → List String
 end
 
 end Frag
+
+/-- The push of a literal. -/
+def litCode : Expr → SCode
+  | .int sp v => [(.copyPush (.int v), sp)]
+  | .bool sp b => [(.copyPush (.bool b), sp)]
+  | .str sp s => [(.copyPush (.str s), sp)]
+  | _ => []
+
+/-- The tests of one `match` arm: the control value stays on the stack; a hit jumps to `name`. -/
+def litTests (sp : Span) (name : String) : List Expr → SCode
+  | [] => []
+  | l :: ls => litCode l ++ [(.eqPopOnce, sp), (.not, sp), (.jumpIfFalse name, sp)] ++ litTests sp name ls
+
+/-- The comparison cascade of a `match`: code, the case labels in arm order, label counters. -/
+def armTests (mod : String) (sp : Span) : List (List Expr × Expr) → LM → SCode × List String × LM
+  | [], lm => ([], [], lm)
+  | a :: rest, lm =>
+    (litTests sp (freshLabel mod lm "case").1 a.1 ++ (armTests mod sp rest (freshLabel mod lm "case").2).1,
+     (freshLabel mod lm "case").1 :: (armTests mod sp rest (freshLabel mod lm "case").2).2.1,
+     (armTests mod sp rest (freshLabel mod lm "case").2).2.2)
 
 mutual
 /-- **The code of an expression of the general fragment** (`ρ`: variables, `φ`: functions). -/
@@ -139,7 +181,24 @@ def cgE (mod : String) (ρ φ : String → Option String) : Expr → LM → SCod
       [(.label after.1, sp)], ce.2)
   | .call sp _ (.ident _ _ name _ _ _) args _, lm =>
     ((cgArgs mod ρ φ args lm).1 ++ [(.callImm ((φ name).getD name), sp)], (cgArgs mod ρ φ args lm).2)
+  | .matchE sp _ c arms (some d), lm =>
+    let cc := cgE mod ρ φ c lm
+    let after := freshLabel mod cc.2 "match_after"
+    let ts := armTests mod sp arms after.2
+    let dfl := freshLabel mod ts.2.2 "match_default"
+    let bs := cgArms mod ρ φ sp after.1 arms ts.2.1 dfl.2
+    let cd := cgE mod ρ φ d bs.2
+    (cc.1 ++ ts.1 ++ [(.jump dfl.1, sp)] ++ bs.1 ++ [(.label dfl.1, sp), (.drop, sp)] ++ cd.1 ++
+      [(.jump after.1, sp), (.label after.1, sp)], cd.2)
   | _, lm => ([], lm)
+/-- The arm bodies of a `match`: `case: Drop; body; Jump after`. -/
+def cgArms (mod : String) (ρ φ : String → Option String) (sp : Span) (after : String) :
+    List (List Expr × Expr) → List String → LM → SCode × LM
+  | a :: rest, nm :: nms, lm =>
+    ([(.label nm, sp), (.drop, sp)] ++ (cgE mod ρ φ a.2 lm).1 ++ [(.jump after, sp)] ++
+      (cgArms mod ρ φ sp after rest nms (cgE mod ρ φ a.2 lm).2).1,
+     (cgArms mod ρ φ sp after rest nms (cgE mod ρ φ a.2 lm).2).2)
+  | _, _, lm => ([], lm)
 def cgB (mod : String) (ρ φ : String → Option String) : Block → LM → SCode × LM
   | .mk _ _ [] (some e), lm => cgE mod ρ φ e lm
   | _, lm => ([], lm)
@@ -247,6 +306,15 @@ def cgS (mod fn : String) (φ : String → Option String) :
     ([(.setTry ((φ fn).getD "") exc.1, tsp)] ++ ct.1 ++
       [(.popTry, tsp), (.jump after.1, tsp), (.label exc.1, tsp), (.setVar fv.1, tsp), (.popTry, tsp)] ++ cc.1 ++
       [(.label after.1, tsp)], { cc.2 with scopes := cc.2.scopes.tail })
+  | loops, .exprS _ (.matchE sp _ c arms (some (.blockE db))), env =>
+    let cc := cgE mod (ρS env.scopes) φ c env.lm
+    let after := freshLabel mod cc.2 "match_after"
+    let ts := armTests mod sp arms after.2
+    let dfl := freshLabel mod ts.2.2 "match_default"
+    let bs := cgArmsS mod fn φ loops sp after.1 arms ts.2.1 { env with lm := dfl.2 }
+    let cd := cgBS mod fn φ loops db bs.2
+    (cc.1 ++ ts.1 ++ [(.jump dfl.1, sp)] ++ bs.1 ++ [(.label dfl.1, sp), (.drop, sp)] ++ cd.1 ++
+      [(.jump after.1, sp), (.label after.1, sp)], cd.2)
   | _, .exprS sp (.call csp cty (.ident isp ity name g f si) args sw), env =>
     if name == "throw" then
       let ca := cgArgs mod (ρS env.scopes) φ args env.lm
@@ -288,6 +356,17 @@ def cgSs (mod fn : String) (φ : String → Option String) :
   | loops, s :: ss, env =>
     ((cgS mod fn φ loops s env).1 ++ (cgSs mod fn φ loops ss (cgS mod fn φ loops s env).2).1,
      (cgSs mod fn φ loops ss (cgS mod fn φ loops s env).2).2)
+/-- The arm bodies of a `match` statement: `case: Drop; block; Jump after`. -/
+def cgArmsS (mod fn : String) (φ : String → Option String) (loops : List (String × String)) (sp : Span)
+    (after : String) : List (List Expr × Expr) → List String → CEnv → SCode × CEnv
+  | (_, .blockE b) :: rest, nm :: nms, env =>
+    ([(.label nm, sp), (.drop, sp)] ++ (cgBS mod fn φ loops b env).1 ++ [(.jump after, sp)] ++
+      (cgArmsS mod fn φ loops sp after rest nms (cgBS mod fn φ loops b env).2).1,
+     (cgArmsS mod fn φ loops sp after rest nms (cgBS mod fn φ loops b env).2).2)
+  | _ :: rest, nm :: nms, env =>
+    ([(.label nm, sp), (.drop, sp), (.jump after, sp)] ++ (cgArmsS mod fn φ loops sp after rest nms env).1,
+     (cgArmsS mod fn φ loops sp after rest nms env).2)
+  | _, _, env => ([], env)
 /-- A block of statements without a trailing expression, in its own scope. -/
 def cgBS (mod fn : String) (φ : String → Option String) :
     List (String × String) → Block → CEnv → SCode × CEnv
@@ -358,6 +437,8 @@ def okGS : Bool → Bool → Stmt → Bool
   | il, rt, .exprS _ (.ifE _ ty c t (some eb)) => ty.isNull && okGE c && okGBS il rt t && okGBS il rt eb
   | il, rt, .exprS _ (.ifE _ ty c t none) => ty.isNull && okGE c && okGBS il rt t
   | il, rt, .exprS _ (.tryE _ ty t _ c) => ty.isNull && okGBS false false t && okGBS il rt c
+  | il, rt, .exprS _ (.matchE _ ty c arms (some (.blockE db))) =>
+    ty.isNull && okGE c && okGArmsS il rt arms && okGBS il rt db
   | _, _, .exprS _ (.call csp cty (.ident isp ity name g f si) args sw) =>
     if name == "throw" then
       !sw && decide (args.length = 1) && args.all (fun a => atomE a.2)
@@ -376,6 +457,11 @@ def okGSs : Bool → Bool → List Stmt → Bool
 def okGBS : Bool → Bool → Block → Bool
   | il, rt, .mk _ _ stmts none => okGSs il rt stmts
   | _, _, _ => false
+/-- The arms of a `match` statement: literal patterns, statement blocks as bodies. -/
+def okGArmsS : Bool → Bool → List (List Expr × Expr) → Bool
+  | _, _, [] => true
+  | il, rt, (lits, .blockE b) :: rest => lits.all litE && okGBS il rt b && okGArmsS il rt rest
+  | _, _, _ => false
 end
 
 mutual
@@ -386,6 +472,7 @@ def depthGS : Stmt → Nat
   | .exprS _ (.ifE _ _ c t none) => max (depthGE c) (depthGBS t) + 2
   | .exprS _ (.call _ _ _ args _) => depthGArgs args + 2
   | .exprS _ (.tryE _ _ t _ c) => max (depthGBS t) (depthGBS c) + 2
+  | .exprS _ (.matchE _ _ c arms (some (.blockE db))) => max (depthGE c) (max (depthGArmsS arms) (depthGBS db)) + 2
   | .whileS _ c body => max (depthGE c) (depthGBS body) + 1
   | .loopS _ body => depthGBS body + 1
   | .ret _ (some e) => depthGE e + 1
@@ -395,6 +482,10 @@ def depthGSs : List Stmt → Nat
   | s :: ss => max (depthGS s) (depthGSs ss) + 1
 def depthGBS : Block → Nat
   | .mk _ _ stmts _ => depthGSs stmts + 1
+def depthGArmsS : List (List Expr × Expr) → Nat
+  | (_, .blockE b) :: rest => max (depthGBS b) (depthGArmsS rest)
+  | _ :: rest => depthGArmsS rest
+  | [] => 0
 end
 
 /-- The called names are functions, not variables. -/
@@ -433,6 +524,15 @@ def wsGS (mod fn : String) (φ : String → Option String) : List (String × Str
           "exception_label").2 "after_catch_label").2 }).2 with
           scopes := [] :: (cgBS mod fn φ [] t { env with lm := (freshLabel mod (freshLabel mod env.lm
             "exception_label").2 "after_catch_label").2 }).2.scopes } catchIdent).2
+  | loops, .exprS _ (.matchE sp _ c arms (some (.blockE db))), env =>
+    wsGE env.scopes φ c &&
+      wsGArmsS mod fn φ loops arms { env with lm := (freshLabel mod (armTests mod sp arms (freshLabel mod
+        (cgE mod (ρS env.scopes) φ c env.lm).2 "match_after").2).2.2 "match_default").2 } &&
+      wsGBS mod fn φ loops db (cgArmsS mod fn φ loops sp (freshLabel mod
+          (cgE mod (ρS env.scopes) φ c env.lm).2 "match_after").1 arms
+        (armTests mod sp arms (freshLabel mod (cgE mod (ρS env.scopes) φ c env.lm).2 "match_after").2).2.1
+        { env with lm := (freshLabel mod (armTests mod sp arms (freshLabel mod
+          (cgE mod (ρS env.scopes) φ c env.lm).2 "match_after").2).2.2 "match_default").2 }).2
   | _, .exprS _ (.call _ _ (.ident _ _ name _ _ _) args _), env =>
     if name == "throw" then
       (ρS env.scopes name).isNone && (φ name).isNone && wsGArgs env.scopes φ args
@@ -456,6 +556,12 @@ def wsGSs (mod fn : String) (φ : String → Option String) : List (String × St
   | loops, s :: ss, env => wsGS mod fn φ loops s env && wsGSs mod fn φ loops ss (cgS mod fn φ loops s env).2
 def wsGBS (mod fn : String) (φ : String → Option String) : List (String × String) → Block → CEnv → Bool
   | loops, .mk _ _ stmts _, env => wsGSs mod fn φ loops stmts { env with scopes := [] :: env.scopes }
+def wsGArmsS (mod fn : String) (φ : String → Option String) :
+    List (String × String) → List (List Expr × Expr) → CEnv → Bool
+  | loops, (_, .blockE b) :: rest, env =>
+    wsGBS mod fn φ loops b env && wsGArmsS mod fn φ loops rest (cgBS mod fn φ loops b env).2
+  | loops, _ :: rest, env => wsGArmsS mod fn φ loops rest env
+  | _, [], _ => true
 end
 
 /-- Variables read and functions called. -/
@@ -471,6 +577,7 @@ def identsGS : Stmt → List String
   | .exprS _ (.ifE _ _ c t none) => namesGE c ++ identsGBS t
   | .exprS _ (.call _ _ (.ident _ _ name _ _ _) args _) => name :: namesGArgs args
   | .exprS _ (.tryE _ _ t catchIdent c) => identsGBS t ++ (catchIdent :: identsGBS c)
+  | .exprS _ (.matchE _ _ c arms (some (.blockE db))) => namesGE c ++ (identsGArmsS arms ++ identsGBS db)
   | .whileS _ c body => namesGE c ++ identsGBS body
   | .loopS _ body => identsGBS body
   | .ret _ (some e) => namesGE e
@@ -480,6 +587,10 @@ def identsGSs : List Stmt → List String
   | s :: ss => identsGS s ++ identsGSs ss
 def identsGBS : Block → List String
   | .mk _ _ stmts _ => identsGSs stmts
+def identsGArmsS : List (List Expr × Expr) → List String
+  | (_, .blockE b) :: rest => identsGBS b ++ identsGArmsS rest
+  | _ :: rest => identsGArmsS rest
+  | [] => []
 end
 
 end Frag
